@@ -106,7 +106,7 @@ func TestC06(t *testing.T) {
 		i = j
 	}
 	if os.Getenv("VERIF_WORKERS") == "" {
-		os.Setenv("VERIF_WORKERS", "6")
+		os.Setenv("VERIF_WORKERS", "8")
 	}
 	behav.Parallel(len(batches), func(i int) { p.runSequence(batches[i], false) },
 		func(i int, v interface{}, stack string) {
@@ -122,6 +122,7 @@ type parent struct {
 	mu       sync.Mutex
 	crashes  int
 	distinct behav.Distinct
+	sampled  behav.Distinct
 }
 
 func (p *parent) nextID() int {
@@ -324,7 +325,10 @@ func (p *parent) account(c *Case, v *Verdict, upTo []Case, replay bool) {
 	}
 	switch v.Symptom {
 	case "":
-		p.res.AddSample(map[string]interface{}{"case": c, "class": v.Class, "detail": trunc(v.Detail, 160)})
+		// one sample per (family, outcome class, corrupted or not)
+		if p.sampled.Add(fmt.Sprintf("%s/%s/%v", c.Fam, v.Class, len(c.Cors) > 0)) {
+			p.res.AddSample(map[string]interface{}{"case": c, "class": v.Class, "detail": trunc(v.Detail, 160)})
+		}
 	case "harness":
 		p.res.SetInconclusive("harness error on " + behav.JSON(c) + ": " + v.Detail)
 	default:
